@@ -19,6 +19,7 @@ import (
 	"go/constant"
 	"go/token"
 	"go/types"
+	"os"
 	"path/filepath"
 	"sort"
 	"strings"
@@ -366,9 +367,12 @@ func pathLegal(items []*seqItem, leg legality, ver string) (bool, string) {
 }
 
 func checkC01(p *Program, r *Report) {
+	if os.Getenv("C01_DUMP") != "" {
+		c01DumpPrimitives(p)
+	}
 	r.Explanation = "For every registered message codec and protocol version the abstract interpreter enumerates the success traces of Encode (Flags() inlined, so the flag word on each path is a constant) and of Decode (flag words and discriminators are symbols with the conditions the path assumed). Every version-legal encoder trace (flag bits defined for the version per spec/codes.tsv) must be matched by a decoder trace: same notations in order, same loop nesting and recursion, and the written flag/discriminator constants must satisfy the decoder path's conditions. Plus: decoder success paths return non-nil, registry coherence, exported-field coverage. These are necessary conditions of the round trip visible in the shape of the code; equality of field values, compression contents and IP normalisation are not decided."
 	r.Trusted = []string{"absint evaluator", "spec/codes.tsv for the per-version legality of flag bits"}
-	r.Assumptions = []string{"primitive notations round-trip individually (their writer/reader agreement is checked at byte level in the thorough tier)", "a discriminator the writer does not test itself is accepted when the reader has a path for it"}
+	r.Assumptions = []string{"primitive notations round-trip individually (their length/byte agreement is decided by C03 primitive-length in byte mode)", "a discriminator the writer does not test itself is accepted when the reader has a path for it"}
 	pe := newPenum(p)
 	vers := supportedVersions(p, pe)
 	leg := loadLegality()
@@ -879,6 +883,58 @@ func c01ElisionPredicate(p *Program, r *Report) {
 			r.OKf("elision-predicate", key, pred.Pos(), "field %s, omitted per column under the flag, is compared with itself across elements", f)
 		} else {
 			r.Fail("elision-predicate", key, pred.Pos(), "the encoder omits ColumnMetadata.%s for every column when haveSameTable holds, but haveSameTable does not compare %s with %s element by element: columns with different %s values can be merged into the first one's", f, f, f, f)
+		}
+	}
+}
+
+// c01DumpPrimitives (debug): byte-mode traces of every primitive Write/Read pair.
+func c01DumpPrimitives(p *Program) {
+	scope := p.Pkg("primitive").Types.Scope()
+	pe := newPenum(p)
+	vers := supportedVersions(p, pe)
+	for _, n := range scope.Names() {
+		if !strings.HasPrefix(n, "Write") {
+			continue
+		}
+		w, ok := scope.Lookup(n).(*types.Func)
+		if !ok {
+			continue
+		}
+		rd, ok := scope.Lookup("Read" + strings.TrimPrefix(n, "Write")).(*types.Func)
+		if !ok {
+			continue
+		}
+		v := vers[2]
+		wr := runWire(p, w, v, true, nil)
+		rr := runWire(p, rd, v, true, nil)
+		var dump func(tr []*Sym, st *State, in *Interp) string
+		dump = func(tr []*Sym, st *State, in *Interp) string {
+			var parts []string
+			for _, s := range tr {
+				switch s.Kind {
+				case "op":
+					parts = append(parts, fmt.Sprintf("%s[%s arg=%v id=%d]", s.Name, s.Extra, in.resolve(s.Arg, st), s.ID))
+				case "loop":
+					var bs []string
+					for _, b := range s.Body {
+						if b.IsErr == 1 {
+							continue
+						}
+						bs = append(bs, dump(b.St.trace, b.St, in))
+					}
+					parts = append(parts, fmt.Sprintf("loop(%s){%s}", s.Key, strings.Join(bs, " | ")))
+				}
+			}
+			return strings.Join(parts, " ")
+		}
+		for _, o := range successPaths(wr.outs) {
+			fmt.Fprintf(os.Stderr, "W %s: %s {%s}\n", n, dump(o.St.trace, o.St, wr.in), describeAtoms(o.St))
+		}
+		for _, o := range successPaths(rr.outs) {
+			fmt.Fprintf(os.Stderr, "R %s: %s {%s}\n", rd.Name(), dump(o.St.trace, o.St, rr.in), describeAtoms(o.St))
+		}
+		if len(wr.in.Undecided)+len(rr.in.Undecided) > 0 {
+			fmt.Fprintf(os.Stderr, "  UNDECIDED %v %v\n", wr.in.Undecided, rr.in.Undecided)
 		}
 	}
 }
